@@ -307,6 +307,18 @@ def r22_9(ctx, rep):
     run_as(r16_1, "R22.9", ctx, rep)
 
 
+@SPEC.rule(
+    "R22.10",
+    "`fixed` keeps its shape: attribute values are coerced with the variable's own type only (R13.10 evaluated for this property) — "
+    "`bool(<fixed attribute>)` turns the list {true,false,true} of an array input into True, every element counts as fixed and a duration "
+    "that depends on a free element is accepted",
+)
+def r22_10(ctx, rep):
+    from ..engine import run_as
+    from .c13 import r13_10
+    run_as(r13_10, "R22.10", ctx, rep)
+
+
 # -- seeded variants ---------------------------------------------------------
 from ._mut import delete_stmt_where, replace_in_func  # noqa: E402
 
